@@ -29,6 +29,14 @@ let parse_raw s =
     | "kl" :: ns -> RKwLit (List.map (fun n -> n_of_int (int_of_string n)) ns)
     | ["ku"] -> RKwUnknown
     | _ -> failwith "rawarg") (items s)
+(* raw arguments with unions:  "ux n1 n2 / n3 / n4 n5"  = a union of closed mappings *)
+let parse_raw_u s =
+  List.map (fun it ->
+    let it = String.trim it in
+    if String.length it >= 2 && String.sub it 0 2 = "ux" then
+      let body = String.sub it 2 (String.length it - 2) in
+      UKwUnion (List.map (fun alt -> List.map (fun n -> n_of_int (int_of_string n)) (words alt)) (String.split_on_char '/' body))
+    else UPlain (List.hd (parse_raw it))) (items s)
 let names l = String.concat "." (List.map (fun n -> string_of_int (int_of_n n)) l)
 let b2s b = if b then "1" else "0"
 let show_pos = function
@@ -56,6 +64,11 @@ let () =
              (match preprocess (parse_raw parts.(1)) with
               | None -> "ERR pre"
               | Some a -> (match (if cmd = 'B' then bind s a else bind_legacy s a) with None -> "ERR" | Some b -> show_bound b))
+           | 'U' ->
+             let s = parse_sig parts.(0) in
+             (match preprocess_u (parse_raw_u parts.(1)) with
+              | None -> "ERR pre"
+              | Some a -> (match bind s a with None -> "ERR" | Some b -> show_bound b))
            | 'P' ->
              let s = parse_sig parts.(0) in
              let npos = nat_of_int (int_of_string (String.trim parts.(1))) in
